@@ -22,7 +22,7 @@ def P(pid, rules, explanation, not_decided, assumptions=(), design="3"):
                           assumptions=list(assumptions), design=f"DESIGN.md section {design}")
 
 
-P("C01", ["IDX", "RETRY", "SIGN", "FREE", "CPFORM", "ARGNAME", "DIRECTION", "RATIOFORM"],
+P("C01", ["IDX", "RETRY", "SIGN", "FREE", "CPFORM", "ARGNAME", "DIRECTION", "RATIOFORM", "PGFORM", "SUBFORM"],
   "Structural necessary conditions of C01, decided on every path of the source: (IDX) index-space typing of "
   "get_cauchy_point shows the sorted breakpoint list is filtered and walked in its own rank space, so variables "
   "resting on a bound with the gradient pushing outward (t = 0) cannot scramble the breakpoint order -- the "
@@ -50,14 +50,15 @@ P("C03", ["DOWNHILL", "ACCEPT", "KEEP", "LSCAP"],
   "line search; (KEEP) the failed-search branch does not touch "
   "(x, fun, jac); (LSCAP) the per-iteration evaluation cap is min(.., maxfun - nfev).",
   "monotonicity under non-determinism or rounding of the user's objective itself", design="3/C03")
-P("C04", ["EXIT", "RET", "NITB", "LSCAP", "ONCE"],
+P("C04", ["EXIT", "RET", "NITB", "LSCAP", "ONCE", "PGFORM"],
   "C04 is a control-flow property and all its clauses are decided: (EXIT) path-sensitive exploration of "
   "minimize_lbfgsb over (message, success flag, comparison knowledge, facts) shows every state reaching a return "
   "carries a documented terminal message that is true of the returned state and success is False exactly for the "
   "abnormal message; (RET) every return is a result built at the return from the internal state and the wrapper's "
   "counters; (NITB) guard conjuncts and the single per-cycle increment bound nit, the loop holds one capped line "
   "search plus one re-evaluation; (LSCAP) cap is min(.., maxfun - nfev); (ONCE) ftarget()/gtol() have one call "
-  "site each outside loops.",
+  "site each outside loops; (PGFORM) the quantity compared with gtol is max|P(x - g) - x| and the "
+  "relative-reduction quantity is (f_old - f)/max(|f_old|, |f|, 1), up to algebraic equivalence.",
   "arithmetic inside the comparisons is abstracted to orderings of syntactically identical operands; NaN "
   "projected gradients are outside the property's smooth-objective premise", design="3/C04")
 P("C05", ["COH", "CNT", "FIELDS", "SF1", "SF3", "SF5", "SF6"],
@@ -94,11 +95,13 @@ P("C08", ["IDX", "SIGN", "PIN", "CPFORM", "RATIOFORM"],
   "floating-point error of these formulas; that the loop visits breakpoints until the first local minimiser "
   "(control structure beyond IDX); model decrease as a numerical fact",
   design="3/C08")
-P("C09", ["SIGN", "ALPHA", "FREE", "RATIOFORM"],
+P("C09", ["SIGN", "ALPHA", "FREE", "RATIOFORM", "SUBFORM"],
   "The three places where the subspace step touches the box: (SIGN) truncation ratios non-negative on both "
   "branches; (ALPHA) the truncation factor is min(1, nonneg) and multiplies the whole step once; (FREE) free set = "
-  "strictly interior variables of the Cauchy point, active set its complement, step enters only through Z.",
-  "exact subspace Newton point, model decrease, descent direction (numerical linear algebra)", design="3/C09")
+  "strictly interior variables of the Cauchy point, active set its complement, step enters only through Z; "
+  "(RATIOFORM) ratios are (bound - x_c)/dHat; (SUBFORM) reduced gradient r = g + theta(x_c - x) - W M c and step "
+  "dHat = -(1/theta)(rHat + (1/theta) Z^T W v) match the direct primal method up to algebraic equivalence.",
+  "the solve of the reduced system itself (K, LEL^T, Sherman-Morrison-Woodbury), model decrease, descent direction", design="3/C09")
 P("C10", ["MEM", "BFGSFORM", "OFFER"],
   "The four memory-discipline clauses of C10 are decided package-wide over every insertion / removal / rebinding "
   "of the point and gradient histories (MEM): guarded by the strict curvature test on the inserted pair, "
